@@ -395,9 +395,9 @@ func (i *insertExecutor) parsePkValuesFromStatement(insertStmt *ast.InsertStmt, 
 				} else {
 					pkValues = append(pkValues, pkValue)
 				}
-				if _, ok := pkValuesMap[pkKey]; !ok {
-					pkValuesMap[pkKey] = pkValues
-				}
+				// the slice that holds this row's value is the one to keep: stored on first sight only,
+				// the values of the second and later rows were appended to a slice nobody kept
+				pkValuesMap[pkKey] = pkValues
 			}
 		}
 	} else {
